@@ -76,6 +76,15 @@ func c11Run(index int, raw json.RawMessage) lab.WorkerResult {
 
 func c11RunOnce(s c11Scenario, settle time.Duration) lab.WorkerResult {
 	bound := c11Bound
+	for _, stt := range s.States {
+		// a TLS session whose send buffer is full: crypto/tls's Conn.Close gives its close_notify alert five seconds
+		// (it replaces the write deadline with now+5s and does not look at the earlier write error) - documented
+		// standard-library behaviour outside gldap, once per connection and in parallel. A healthy Stop then
+		// needs about 5.5 s, so "what a healthy server never needs" is 7 s for such a scenario.
+		if stt == "tls-not-reading" || stt == "starttls-not-reading" {
+			bound = c11Bound + 2*time.Second
+		}
+	}
 	main, _, err := lab.SharedPKI()
 	if err != nil {
 		return lab.WorkerResult{Skipped: err.Error()}
@@ -536,7 +545,7 @@ func c11Exec(c c11Batch, st *lab.Stats) *lab.Fail {
 func TestC11Enum(t *testing.T) {
 	lab.SkipIfReplayOther(t, "enum")
 	st := lab.GetStats("C11", "enum")
-	st.SetRule("complete enumeration: no connection, every single connection state of {idle, idle after served requests, first k bytes of a frame sent, TCP connected to a TLS listener without / with a partial ClientHello, idle inside a TLS session, pipelining requests as fast as it can, requesting a 13 MB answer and never reading, the same followed by an Unbind, the same together with a StartTLS request, StartTLS answered but handshake never started, inside a TLS session (TLS listener, or upgraded with StartTLS) requesting a 13 MB answer and never reading} and every unordered pair of states, each with and without a concurrent second Stop, single states also with one-hour read/write timeouts configured on the server; plus 4 / 32 silent clients per dialer that connect WHILE Stop is being called (plain and TLS listeners, with and without timeouts), and storms of 150 start / connect-flood / Stop cycles per scenario with no settling pause (Stop racing the accept loop); clients never close by themselves; executed in worker child processes; oracle = Stop returns and Run returns nil in bounded time: a Stop still waiting after 20 s with the same goroutines parked in the same places as at 5 s (two identical censuses 0.5 s apart) is a hang; one that needs between 5 and 20 s is counted as late (class) and its diagnostics are kept; a healthy server needs milliseconds; non-trivial = >= 1 connection open at Stop; distinct by scenario")
+	st.SetRule("complete enumeration: no connection, every single connection state of {idle, idle after served requests, first k bytes of a frame sent, TCP connected to a TLS listener without / with a partial ClientHello, idle inside a TLS session, pipelining requests as fast as it can, requesting a 13 MB answer and never reading, the same followed by an Unbind, the same together with a StartTLS request, StartTLS answered but handshake never started, inside a TLS session (TLS listener, or upgraded with StartTLS) requesting a 13 MB answer and never reading} and every unordered pair of states, six such TLS sessions at once, each with and without a concurrent second Stop, single states also with one-hour read/write timeouts configured on the server; plus 4 / 32 silent clients per dialer that connect WHILE Stop is being called (plain and TLS listeners, with and without timeouts), and storms of 150 start / connect-flood / Stop cycles per scenario with no settling pause (Stop racing the accept loop); clients never close by themselves; executed in worker child processes; oracle = Stop returns and Run returns nil in bounded time: a Stop still waiting after 20 s with the same goroutines parked in the same places as at 5 s (two identical censuses 0.5 s apart) is a hang; one that needs between 5 and 20 s is counted as late (class) and its diagnostics are kept; a healthy server needs milliseconds (5.5 s with a TLS session that does not read: crypto/tls gives close_notify 5 s per connection, in parallel - the first bound is 7 s there); non-trivial = >= 1 connection open at Stop; distinct by scenario")
 	defer lab.FlushAll()
 	if lab.ReplayInto(t, st, "enum", c11Exec) {
 		return
@@ -549,6 +558,10 @@ func TestC11Enum(t *testing.T) {
 			all = append(all, c11Scenario{States: []string{a, b}, Cut: 11})
 		}
 	}
+	// several TLS sessions that do not read: each Close spends crypto/tls's five seconds on its close_notify - side by
+	// side, not one after the other (a healthy Stop still needs about 5.5 s)
+	n6 := []string{"tls-not-reading", "tls-not-reading", "tls-not-reading", "tls-not-reading", "tls-not-reading", "tls-not-reading"}
+	all = append(all, c11Scenario{States: n6, Cut: 3}, c11Scenario{States: []string{"starttls-not-reading", "starttls-not-reading", "starttls-not-reading", "tls-not-reading", "tls-not-reading", "tls-not-reading", "idle"}, Cut: 4, SecondStop: true})
 	// clients arriving while Stop runs, against a plain and a TLS server, with and without configured timeouts
 	for _, base := range [][]string{{"idle"}, {"tls-no-hello"}, {"idle", "tls-idle"}} {
 		for _, late := range []int{4, 32} {
